@@ -50,6 +50,15 @@ class Builtin:
         self.name, self.fn = name, fn
 
 
+_SHARED = {'zs': None, 'recfuns': {}, 'ufuns': {}}
+
+
+def shared_zs():
+    if _SHARED['zs'] is None:
+        _SHARED['zs'] = ZS()
+    return _SHARED['zs']
+
+
 def is_sym(v):
     return z3.is_expr(v) or isinstance(v, (VStruct, VOpt, VBox, VObj, VAbs))
 
@@ -65,10 +74,9 @@ def contains_sym(v):
 class Interp:
     def __init__(self, registry, zs=None):
         self.reg = registry
-        self.zs = zs or ZS()
+        self.zs = zs or shared_zs()
         self.path: Path = None
-        self.recfuns = {}           # spec name -> z3 RecFunction / Function
-        self.rec_defined = set()
+        self.recfuns = _SHARED['recfuns']   # spec name -> z3 RecFunction / Function (process-wide: z3 names are global)
         self.assumptions = set()    # textual list of assumptions actually used
         self.callees = {}           # qual -> how it was treated
         self.stats = collections.Counter()
@@ -184,6 +192,11 @@ class Interp:
                 return z3.If(c, z3.IntVal(a), z3.IntVal(b))
             if isinstance(a, str) and isinstance(b, str):
                 return z3.If(c, z3.StringVal(a), z3.StringVal(b))
+            for nm, (srt, terms, objs, S) in self.zs.enums.items():
+                la = [l for l, o in objs.items() if o is a]
+                lb = [l for l, o in objs.items() if o is b]
+                if la and lb:
+                    return z3.If(c, terms[la[0]], terms[lb[0]])
             raise Unsupported(f'ite of concrete {a!r} / {b!r}')
         a2, b2 = self.zs.common(a, b)
         return z3.If(c, a2, b2)
@@ -251,7 +264,8 @@ class Interp:
         except TypeError:
             # different python types never compare equal (e.g. str vs int)
             return False
-        if isinstance(a2.sort(), z3.SeqSortRef) and not z3.is_string(a2):
+        if isinstance(a2.sort(), z3.SeqSortRef) and not z3.is_string(a2) and not self.cur_pure():
+            # python == of the analysed CODE on sequences: index-recursive; in contract/spec TEXT == is mathematical equality
             return self.zs.seq_eq_fn(a2.sort())(a2, b2, z3.IntVal(0))
         return a2 == b2
 
